@@ -34,6 +34,8 @@ def cases(rng, tier):
     for i in range(k):
         c_ = rvgen.sim_case(rng, "five", hazard=True, opts={"wide": i % 4 == 0}, trace=45, run=600, dprob=0.4, iprob=0.4, suite="sim-five")
         yield rvgen.as_text_case(c_) if i % 4 == 3 else c_        # every fourth program goes through the loader
+    for prog, regs in rvgen.long_programs(rng, tier):
+        yield rvgen.long_case(prog, regs, "five", True, dspec=rvgen.penalty_cache_spec(rng, "d"), ispec=rvgen.penalty_cache_spec(rng, "i"), suite="sim-five")
     for prog, regs in rvgen.fault_schedule_programs():          # schedules around faults, drains and squashed instructions
         lines = rvgen.header("five", True, "-", "-", prog, regs, []) + ["sim.snap"]
         for _ in range(16):
@@ -123,7 +125,7 @@ def oracle(c):
     regs = {i: int(v) for i, v in enumerate(d0["regs"].split(","))}
     ref = pipe_ref.PipeRef(rvref.parse_prog(rvref.prog_of_lines(c.lines)), regs, rvref.mem_of_snap(d0), hazard=True)
     try:
-        while not ref.done() and ref.cycle < 3000:
+        while not ref.done() and ref.cycle < (30000 if c.meta.get("long") else 3000):
             ref.step()
     except rvref.Fault:
         return fails
@@ -135,7 +137,7 @@ def oracle(c):
             im.run(l)
     got = []
     k = 0
-    while not im.sim.is_done() and k < 3000:
+    while not im.sim.is_done() and k < (30000 if c.meta.get("long") else 3000):
         im.sim.step()
         k += 1
         r = im.sim.state.pipeline.pipeline_registers[4]
